@@ -28,6 +28,7 @@ Sys == /\ Has /\ E.ev = "sys" /\ open
           ELSE IF E.what = "close_tmp" THEN tmp # "absent" /\ UNCHANGED pvars     \* not modelled: stutter
           ELSE IF E.what = "rename" THEN P!Rename
           ELSE IF E.what = "unlink_tmp" THEN tmp # "absent" /\ P!GuardDrop
+          ELSE IF E.what = "io_failed" THEN P!LocalIoFail                          \* an injected ENOSPC / EIO / EXDEV: no effect, the pull fails
           ELSE FALSE                                                              \* any other call on those paths
        /\ l' = l + 1 /\ UNCHANGED <<pre, open>>
 Silent == /\ open /\ Has
